@@ -195,7 +195,7 @@ def r6(ctx, fs):
     _smart.ordering_stores(ctx, rid, fs.fn(RR + '::store_variables'), RR, 'new_leq')
     _smart.resolvers_both_orders(ctx, rid, fs.fn(RR + '::rr_flaw::compute_resolvers'), RR)
     _smart.listeners(ctx, rid, fs, RR + '::rr_atom_listener', 'to_check')
-    _smart.notification_keys(ctx, rid, fs)
+    _smart.listener_base(ctx, rid, fs)
 
 
 def run(ctx):
